@@ -32,7 +32,7 @@ def variants():
 
 
 def budget(tier):
-    return 250 if tier == "quick" else 6000
+    return 400 if tier == "quick" else 6000
 
 
 from prog import decode_step, run_command, run_history, cfg_classes, ev_json
